@@ -1316,7 +1316,13 @@ func (r *Run) binop(st *State, op token.Token, a, b TV, opndT, resT types.Type, 
 			name = "band"
 			r.warn("&^ with non-constant operand is uninterpreted")
 		}
-		return res(r.rangeUF(st, name, a.S, b.S, resT))
+		v := r.rangeUF(st, name, a.S, b.S, resT)
+		if op == token.AND {
+			// x & y with a non-negative operand lies between 0 and that operand (two's complement, any width)
+			r.assumeGlobal(implies(app(">=", a.S, "0"), and(app("<=", "0", v), app("<=", v, a.S))))
+			r.assumeGlobal(implies(app(">=", b.S, "0"), and(app("<=", "0", v), app("<=", v, b.S))))
+		}
+		return res(v)
 	case token.EQL:
 		return bres(r.equal(a, b, opndT))
 	case token.NEQ:
